@@ -113,6 +113,10 @@ func reverseInboundTraversalReadingClauses(readingClauses []*cypher.ReadingClaus
 					if reverseInboundTraversalPatternPart(patternPart, declaredSymbols, searchSymbols) {
 						applied = true
 					}
+
+					// An earlier pattern part of the same MATCH binds its symbols for the parts that follow it:
+					// MATCH (s {name: 'a'}), p = (s)-[*0..]->()-[]->(d) drives p from the bound s as well.
+					declarePatternSymbols(declaredSymbols, patternPart)
 				}
 			}
 
